@@ -839,6 +839,148 @@ theorem C14.budget_under_overlapping_callers (M : Nat) (s : L3.Sys Nat Bool) (hI
   rw [C14.locked_sections_atomic s hI sched]
   exact (budget_runA M sched s hB).bound
 
+/-! … and the counter equals the number of callbacks that actually ran: every booked run is one
+    invocation and vice versa ("attempts counts invocations"), for every schedule -/
+
+def trues (th : L3.Thread Nat Bool) : Nat := th.outs.count true
+def trueCount (s : L3.Sys Nat Bool) : Nat := (s.thr.map trues).sum
+
+theorem sum_map_set (f : L3.Thread Nat Bool → Nat) :
+    ∀ (l : List (L3.Thread Nat Bool)) (i : Nat) (th t' : L3.Thread Nat Bool), l[i]? = some th →
+      ((l.set i t').map f).sum + f th = (l.map f).sum + f t' := by
+  intro l
+  induction l with
+  | nil => intro i th t' h; simp at h
+  | cons x xs ih =>
+      intro i th t' h
+      cases i with
+      | zero =>
+          simp only [List.getElem?_cons_zero, Option.some.injEq] at h
+          subst h
+          simp only [List.set_cons_zero, List.map_cons, List.sum_cons]; omega
+      | succ n =>
+          simp only [List.getElem?_cons_succ] at h
+          have := ih n th t' h
+          simp only [List.set_cons_succ, List.map_cons, List.sum_cons]; omega
+
+/-- no unlocked reads that would also write an output (the counting theorem is about `_exec` sections only) -/
+def noPeek : List (L3.Step Nat Bool) → Prop
+  | [] => True
+  | .peek _ :: _ => False
+  | _ :: p => noPeek p
+
+structure CountInv (M d : Nat) (s : L3.Sys Nat Bool) : Prop where
+  base : BudgetInv M s
+  count : s.st = d + trueCount s
+  nopeek : ∀ (i : Nat) (th : L3.Thread Nat Bool), s.thr[i]? = some th → noPeek th.prog
+
+theorem count_stepA (M d : Nat) (s : L3.Sys Nat Bool) (h : CountInv M d s) (i : Nat) : CountInv M d (L3.stepA s i) := by
+  have hbase := budget_stepA M s h.base i
+  refine ⟨hbase, ?_, ?_⟩
+  all_goals
+    unfold L3.stepA
+    cases hth : s.thr[i]? with
+    | none => first | exact h.count | exact h.nopeek
+    | some th =>
+        simp only []
+        have hnp := h.nopeek i th hth
+        obtain ⟨hnb, hog⟩ := h.base.shape i th hth
+        cases hp : th.prog with
+        | nil => simp only [L3.step, hth, hp]; first | exact h.count | exact h.nopeek
+        | cons stp p =>
+            rw [hp] at hnp hnb hog
+            cases stp with
+            | peek g => exact absurd hnp (by simp [noPeek])
+            | commit f =>
+                simp only []
+                obtain ⟨hb, _⟩ := hnb
+                obtain ⟨hf, _⟩ := hog
+                have hlen : th.buf.length ≠ 0 := by
+                  intro h0
+                  have : th.buf = [] := List.length_eq_zero_iff.mp h0
+                  simp [this] at hb
+                obtain ⟨k, hk⟩ := Nat.exists_eq_succ_of_ne_zero hlen
+                first
+                | -- count
+                  show (f (List.replicate th.buf.length s.st)).1 = d + trueCount { s with st := _, thr := s.thr.set i _ }
+                  have hs := sum_map_set trues s.thr i th { th with prog := p, buf := [], outs := th.outs ++ [(f (List.replicate th.buf.length s.st)).2] } hth
+                  have hc := h.count
+                  unfold trueCount at hc ⊢
+                  simp only [] at hs ⊢
+                  rw [hf, hk, List.replicate_succ] at hs ⊢
+                  simp only [guardedRun] at hs ⊢
+                  by_cases hlt : s.st < M
+                  · simp only [hlt, if_true, trues, List.count_append, List.count_singleton, BEq.rfl, if_true] at hs ⊢
+                    omega
+                  · simp only [hlt, if_false, trues, List.count_append, List.count_singleton] at hs ⊢
+                    simp at hs ⊢
+                    omega
+                | -- nopeek
+                  intro j tj hj
+                  rw [L3.getElem?_set_thr _ _ _ _ _ hth] at hj
+                  by_cases hij : i = j
+                  · subst hij; simp only [if_true, Option.some.injEq] at hj; subst hj
+                    simpa [noPeek] using hnp
+                  · simp only [hij, if_false] at hj; exact h.nopeek j tj hj
+            | acq =>
+                simp only [L3.step, hth, hp]
+                first
+                | (have hs := sum_map_set trues s.thr i th { th with prog := p, buf := [] } hth
+                   have hc := h.count
+                   unfold trueCount at hc ⊢
+                   simp only [trues] at hs ⊢
+                   omega)
+                | (intro j tj hj
+                   rw [L3.getElem?_set_thr _ _ _ _ _ hth] at hj
+                   by_cases hij : i = j
+                   · subst hij; simp only [if_true, Option.some.injEq] at hj; subst hj; simpa [noPeek] using hnp
+                   · simp only [hij, if_false] at hj; exact h.nopeek j tj hj)
+            | rel =>
+                simp only [L3.step, hth, hp]
+                first
+                | (have hs := sum_map_set trues s.thr i th { th with prog := p, buf := [] } hth
+                   have hc := h.count
+                   unfold trueCount at hc ⊢
+                   simp only [trues] at hs ⊢
+                   omega)
+                | (intro j tj hj
+                   rw [L3.getElem?_set_thr _ _ _ _ _ hth] at hj
+                   by_cases hij : i = j
+                   · subst hij; simp only [if_true, Option.some.injEq] at hj; subst hj; simpa [noPeek] using hnp
+                   · simp only [hij, if_false] at hj; exact h.nopeek j tj hj)
+            | snap =>
+                simp only [L3.step, hth, hp]
+                first
+                | (have hs := sum_map_set trues s.thr i th { th with prog := p, buf := th.buf ++ [s.st] } hth
+                   have hc := h.count
+                   unfold trueCount at hc ⊢
+                   simp only [trues] at hs ⊢
+                   omega)
+                | (intro j tj hj
+                   rw [L3.getElem?_set_thr _ _ _ _ _ hth] at hj
+                   by_cases hij : i = j
+                   · subst hij; simp only [if_true, Option.some.injEq] at hj; subst hj; simpa [noPeek] using hnp
+                   · simp only [hij, if_false] at hj; exact h.nopeek j tj hj)
+
+theorem count_runA (M d : Nat) (sched : List Nat) (s : L3.Sys Nat Bool) (h : CountInv M d s) :
+    CountInv M d (L3.runA sched s) := by
+  induction sched generalizing s with
+  | nil => exact h
+  | cons i rest ih =>
+      simp only [L3.runA, List.foldl_cons]
+      by_cases he : L3.enabled s i = true
+      · simp only [he, if_true]; exact ih _ (count_stepA M d s h i)
+      · simp only [he]; exact ih _ h
+
+/-- **attempts = invocations, under every interleaving of overlapping callers**: the counter the code
+    computes equals its initial offset plus the number of `_exec` sections that reported "callback
+    ran" - no run is booked twice, none is lost -/
+theorem C14.attempts_equal_invocations_under_overlapping_callers (M d : Nat) (s : L3.Sys Nat Bool)
+    (hI : L3.Inv s) (hC : CountInv M d s) (sched : List Nat) :
+    (L3.run sched s).st = d + trueCount (L3.run sched s) := by
+  rw [C14.locked_sections_atomic s hI sched]
+  exact (count_runA M d sched s hC).count
+
 /-- the `_exec` section -/
 def execSection (M : Nat) : List (L3.Step Nat Bool) := [.acq, .snap, .commit (guardedRun M), .rel]
 
